@@ -996,7 +996,18 @@ class ICalendarFile(File):
                 ]
                 if len(segments) == 1:
                     for v in values:
-                        yield v.to_ical()
+                        dt = getattr(v, "dt", None)
+                        if (
+                            isinstance(dt, datetime)
+                            and dt.tzinfo is not None
+                            and dt.utcoffset() is not None
+                        ):
+                            # The index holds the bare value, without the
+                            # TZID parameter: keep the instant by storing
+                            # it in UTC.
+                            yield vDDDTypes(dt.astimezone(timezone.utc)).to_ical()
+                        else:
+                            yield v.to_ical()
                 elif len(segments) == 2 and segments[1].startswith("A="):
                     # Values of a parameter, as asked for by
                     # PropertyFilter.index_keys() for param-filters
